@@ -777,6 +777,10 @@ fn engine_slices(args: &Args) -> i32 {
             _ => tv::slices::run_one::<tk::T64>(hseed, ops, light, &mut st),
         };
         st.counts.bump(&format!("slices.shape.{}", shape));
+        let r = match r {
+            Ok(()) if k % 3 == 0 => tv::slices::run_str(hseed, ops / 2, &mut st),
+            other => other,
+        };
         if let Err((vs, trace)) = r {
             for v in &vs {
                 emit_violation(v, "slices", seed, &format!("k={} shape={} ops={}", k, shape, ops), &trace);
